@@ -106,7 +106,8 @@ impl Check for C18 {
     }
 
     fn run(&self, run: &Run) {
-        let q = run.tier.quick();
+        let deep = !run.tier.quick();
+        let q = false;
         run.rule("scenes with valid premultiplied destinations and sources: (1) the C03 space (context x probe x 28 modes x alphas x sources incl. gradients and filtered images), (2) all ordered pairs of blend modes in two consecutive draws, (3) layer scenes with every layer blend; after every call every pixel of the surface and of every open layer must satisfy r,g,b <= a; plus Color / from_unpremultiplied_argb over a 17^4 grid; non-trivial = scene ran to completion");
         let (w, h) = (12, 4);
         let ctxs = contexts(w, h, q);
@@ -132,13 +133,19 @@ impl Check for C18 {
             }
         });
         // (2) mode pairs: the output of one draw is the destination of the next
-        let pair_srcs: Vec<SrcSpec> = vec![SrcSpec::Solid(0x80002040), SrcSpec::Solid(0xff204080), SrcSpec::Solid(0x01010001), grad_sources()[0].clone(), grad_sources()[4].clone()];
+        let mut pair_srcs: Vec<SrcSpec> = vec![SrcSpec::Solid(0x80002040), SrcSpec::Solid(0xff204080), SrcSpec::Solid(0x01010001), grad_sources()[0].clone(), grad_sources()[4].clone()];
+        if deep {
+            pair_srcs.extend(grad_sources().into_iter().skip(1).take(3));
+            pair_srcs.push(SrcSpec::Solid(0xfe00fe7f));
+            pair_srcs.push(SrcSpec::Solid(0x40400020));
+        }
+        let pair_alphas: Vec<f32> = if deep { vec![0.1, 0.25, 0.5, 0.75, 1.0] } else { vec![0.25, 0.5, 1.0] };
         run.bound("mode pairs", format!("28 x 28 ordered mode pairs x {} x {} sources x 3 alphas x 2 shapes", pair_srcs.len(), pair_srcs.len()));
         run.par(MODES.len() * MODES.len(), |s, l| {
             let (m1, m2) = (MODES[s / MODES.len()], MODES[s % MODES.len()]);
             for s1 in &pair_srcs {
                 for s2 in &pair_srcs {
-                    for &alpha in &[0.25f32, 0.5, 1.0] {
+                    for &alpha in &pair_alphas {
                         for shape in 0..2 {
                             let (a, b) = if shape == 0 {
                                 (Op::Fill(PathSpec::poly(&[(0., 0.), (12., 0.5), (0.25, 4.)]), s1.clone(), Opts { mode: m1, alpha, aa: true }), Op::Fill(PathSpec::poly(&[(12., 4.), (0., 3.5), (11.75, 0.)]), s2.clone(), Opts { mode: m2, alpha: 1.0, aa: true }))
